@@ -95,6 +95,18 @@ pub fn judge(
     let want = &made.expected;
     if kinds::index_kind(kind) {
         // binary index: Err, or an index equal to the original
+        // BAI: the trailing n_no_coor (8 bytes) is optional in the format; an index that equals the
+        // original except for an absent unplaced-unmapped count is "the original minus an optional
+        // trailing field"
+        if obs.end == End::Eof && kind == Kind::Bai && k + 8 >= len && got.len() == 1 && want.len() == 1 {
+            let strip = |s: &str| match s.find("unplaced_unmapped_record_count: ") {
+                Some(i) => s[..i].to_string(),
+                None => s.to_string(),
+            };
+            if strip(&got[0]) == strip(&want[0]) && got[0].contains("unplaced_unmapped_record_count: None") {
+                return None;
+            }
+        }
         if obs.end == End::Eof && got != *want {
             return Some((
                 "altered-index".into(),
@@ -154,7 +166,11 @@ pub fn judge(
     }
     if kinds::container_kind(kind) && obs.end == End::Eof {
         // boundaries = container starts (+ file length); a cut strictly inside a container
-        if made.boundaries.binary_search(&k).is_err() && k > made.boundaries.first().copied().unwrap_or(0) {
+        // the EOF container is recognised from its (CRC-protected) 23-byte header alone; a cut
+        // inside its fixed, data-free 15-byte body loses nothing and is not judged
+        let nb = made.boundaries.len();
+        let in_eof_body = nb >= 2 && k >= made.boundaries[nb - 2] + 23;
+        if !in_eof_body && made.boundaries.binary_search(&k).is_err() && k > made.boundaries.first().copied().unwrap_or(0) {
             return Some((
                 "clean-eof-inside-container".into(),
                 format!("\u{1}file ends inside a container (offset {k}) but the reader reported a clean end after {} items", got.len()),
@@ -173,13 +189,15 @@ pub fn enumerate_cuts(made: &Made, cuts: &Cuts) -> Vec<usize> {
             let mut set = std::collections::BTreeSet::new();
             let mut rng = Rng::new(*seed);
             // all boundaries when there are few; else the first/last 12 and 26 seeded ones
-            let bs: Vec<usize> = if made.boundaries.len() <= 50 {
+            let cram = made.spec.kind == Kind::Cram;
+            let bs: Vec<usize> = if made.boundaries.len() <= if cram { 12 } else { 50 } {
                 made.boundaries.clone()
             } else {
                 let n = made.boundaries.len();
-                let mut v: Vec<usize> = made.boundaries[..12].to_vec();
-                v.extend_from_slice(&made.boundaries[n - 12..]);
-                for _ in 0..26 {
+                let edge = if cram { 5 } else { 12 };
+                let mut v: Vec<usize> = made.boundaries[..edge].to_vec();
+                v.extend_from_slice(&made.boundaries[n - edge..]);
+                for _ in 0..(if cram { 6 } else { 26 }) {
                     v.push(made.boundaries[rng.usize_below(n)]);
                 }
                 v
@@ -207,6 +225,12 @@ impl Check for C13 {
     }
     fn level(&self) -> &'static str {
         "fault_enumeration"
+    }
+    fn announce(&self) -> bool {
+        true
+    }
+    fn watchdog_s(&self) -> u64 {
+        30
     }
     fn n_cases(&self, tier: Tier) -> u64 {
         match tier {
@@ -256,12 +280,21 @@ impl Check for C13 {
         let len = made.bytes.len();
         // a file too large to cut everywhere falls back to boundary cuts
         let cuts = match &p.cuts {
-            Cuts::All if len > 6000 => Cuts::Near {
+            Cuts::All if len > 6000 || (p.file.kind == Kind::Cram && len > 1500) => Cuts::Near {
                 radius: 40,
                 sample: 200,
                 seed: p.file.seed ^ 0x5eed,
             },
             c => c.clone(),
+        };
+        // CRAM decoding costs milliseconds per read: fewer cut points per file
+        let cuts = match cuts {
+            Cuts::Near { seed, .. } if p.file.kind == Kind::Cram => Cuts::Near {
+                radius: 6,
+                sample: 40,
+                seed,
+            },
+            c => c,
         };
         let ks = enumerate_cuts(&made, &cuts);
         let variants: Vec<u8> = if p.variants.is_empty() {
@@ -281,6 +314,18 @@ impl Check for C13 {
                 vec![variants[ci % variants.len()]]
             };
             for v in vs {
+                let narrowed = || {
+                    serde_json::to_value(Plan {
+                        kind: p.kind.clone(),
+                        file: p.file.clone(),
+                        variants: vec![v],
+                        cuts: Cuts::List(vec![k]),
+                    })
+                    .unwrap()
+                };
+                if !ctx.begin_sub(narrowed) {
+                    continue;
+                }
                 let d = Delivery {
                     read: ReadPlan::cut(k),
                     wrap: Wrap::Direct,
